@@ -22,7 +22,7 @@ from pyvc.api import (Module, Interface, Method, Iface, Inst, Int, Nat, Pos, Boo
 from pyvc.textio import PathI, TextOutI, TextFileI, StringIOI
 from pyvc.values import SStr, SBool, SList, Opaque, to_z3, wrap
 from pyvc.models import SIter
-from contracts.common import (implies, iff, forall_range, exists_range, prefix_join, join_of, yielded, peek, is_opaque)
+from contracts.common import (implies, iff, forall_range, exists_range, prefix_join, join_of, peek, is_opaque)
 from contracts import text_spec
 from contracts.text_spec import NL, is_line, is_split_nl, split_nl, lines_of
 
